@@ -236,3 +236,111 @@ func VerifH_C04_discussionAndDate() {
 		}
 	}
 }
+
+// c04Elem: one element of the given kind (0 bounds .. 6 user) for the round-trip documents.
+func c04Elem(kind int, id int64) Object {
+	switch kind {
+	case 0:
+		return &Bounds{MinLat: 1, MaxLat: 2, MinLon: float64(id), MaxLon: 40}
+	case 1:
+		return &Node{ID: NodeID(id), Version: 1, Visible: true}
+	case 2:
+		return &Way{ID: WayID(id), Version: 1, Visible: true}
+	case 3:
+		return &Relation{ID: RelationID(id), Version: 1, Visible: true}
+	case 4:
+		return &Changeset{ID: ChangesetID(id)}
+	case 5:
+		return &Note{ID: NoteID(id)}
+	}
+	return &User{ID: UserID(id)}
+}
+
+// VerifH_C04_roundTrip: marshal a container value with the real marshallers, feed what
+// was written to the real decoding logic, get the same value back: OSM (header
+// attributes, bounds, every element kind, in the order the marshaller writes them),
+// Change (create/modify/delete blocks present or absent, with top-level bounds inside a
+// block) and Diff (actions of every type). Containers travel as real token sequences;
+// leaf elements as atomic tokens (their own text is encoding/xml reflection).
+func VerifH_C04_roundTrip() {
+	fill := func(name string) *OSM {
+		o := &OSM{}
+		max := vParam("maxElements", 2)
+		if name != "osm" {
+			max = vParam("maxBlockElements", 1)
+		}
+		n := vRange(name+"Elements", 0, max)
+		for i := 0; i < n; i++ {
+			e := c04Elem(vRange(name+"Kind", 0, 6), int64(i+1))
+			if b, ok := e.(*Bounds); ok {
+				o.Bounds = b
+			} else {
+				o.Append(e)
+			}
+		}
+		return o
+	}
+	buf := &bytes.Buffer{}
+	enc := xml.NewEncoder(buf)
+	switch vRange("container", 0, 2) {
+	case 0:
+		o := fill("osm")
+		o.Version, o.Generator = c04Opt("version"), c04Opt("generator")
+		err := enc.Encode(o)
+		vReach("marshalled")
+		vAssert(err == nil, "no-error")
+		got := &OSM{}
+		err = xml.NewDecoder(vXMLStream(vXMLTokens(enc, buf))).Decode(got)
+		vAssert(err == nil, "decode-no-error")
+		vAssert(vSame(got, o), "osm-round-trips")
+	case 1:
+		c := &Change{Version: c04Opt("version")}
+		if vRange("hasCreate", 0, 1) == 1 {
+			c.Create = fill("create")
+		}
+		if vRange("hasModify", 0, 1) == 1 {
+			c.Modify = fill("modify")
+		}
+		if vRange("hasDelete", 0, 1) == 1 {
+			c.Delete = fill("delete")
+		}
+		err := enc.Encode(c)
+		vReach("marshalled")
+		vAssert(err == nil, "no-error")
+		got := &Change{}
+		err = xml.NewDecoder(vXMLStream(vXMLTokens(enc, buf))).Decode(got)
+		vAssert(err == nil, "decode-no-error")
+		// an empty block and an absent block are the same document
+		norm := func(o *OSM) *OSM {
+			if o == nil || vSame(o, &OSM{}) {
+				return nil
+			}
+			return o
+		}
+		vAssert(vSame(norm(got.Create), norm(c.Create)) && vSame(norm(got.Modify), norm(c.Modify)) && vSame(norm(got.Delete), norm(c.Delete)) && got.Version == c.Version, "change-round-trips")
+	case 2:
+		d := &Diff{}
+		n := vRange("actions", 0, 2)
+		for i := 0; i < n; i++ {
+			typ := []ActionType{ActionCreate, ActionModify, ActionDelete}[vRange("type", 0, 2)]
+			a := Action{Type: typ}
+			kind := 1 + vRange("kind", 0, 2)
+			if typ == ActionCreate {
+				a.OSM = &OSM{}
+				a.OSM.Append(c04Elem(kind, int64(10*i+1)))
+			} else {
+				a.Old, a.New = &OSM{}, &OSM{}
+				a.Old.Append(c04Elem(kind, int64(10*i+1)))
+				a.New.Append(c04Elem(kind, int64(10*i+2)))
+			}
+			d.Actions = append(d.Actions, a)
+		}
+		err := enc.Encode(d)
+		vReach("marshalled")
+		vAssert(err == nil, "no-error")
+		got := &Diff{}
+		err = xml.NewDecoder(vXMLStream(vXMLTokens(enc, buf))).Decode(got)
+		vAssert(err == nil, "decode-no-error")
+		vAssert(vSame(got.Actions, d.Actions), "diff-round-trips")
+	}
+}
